@@ -153,6 +153,14 @@ fn inject_utf8(prefix: &[u8], inj: &[u8]) -> Vec<u8> {
     f
 }
 
+/// the injected bytes are the last bytes of the input (no line feed after them)
+fn inject_utf8_tail(prefix: &[u8], inj: &[u8]) -> Vec<u8> {
+    let mut f = prefix.to_vec();
+    f.extend_from_slice(b"[Metadata]\nArtist:ok\nTitle:a");
+    f.extend_from_slice(inj);
+    f
+}
+
 fn invalid_utf8(tier: Tier, acc_out: &mut Acc) -> Value {
     let max_len = tier.pick(2usize, 3usize);
     let mut per = Vec::new();
@@ -168,6 +176,7 @@ fn invalid_utf8(tier: Tier, acc_out: &mut Acc) -> Value {
                         acc.violation(Violation::new("neighbour-line-affected", show_bytes(&f), case(&f)));
                     }
                 }
+                check_bytes(&inject_utf8_tail(prefix, &inj), acc);
             }
             if std::str::from_utf8(&inj).is_err() {
                 acc.nontrivial(&inj);
@@ -191,6 +200,7 @@ fn invalid_utf8(tier: Tier, acc_out: &mut Acc) -> Value {
         acc.states += 1;
         let f = inject_utf8(&[], &inj);
         check_bytes(&f, acc);
+        check_bytes(&inject_utf8_tail(&[], &inj), acc);
         // and as a whole file (BOM prefixes reach the UTF-16 decoders)
         check_bytes(&inj, acc);
         if std::str::from_utf8(&inj).is_err() {
@@ -219,6 +229,17 @@ fn utf16_file(le: bool, units: &[u16]) -> Vec<u8> {
     v
 }
 
+/// the units are the last ones of the input
+fn utf16_tail_file(le: bool, units: &[u16]) -> Vec<u8> {
+    let mut all: Vec<u16> = "[Metadata]\nArtist:ok\nTitle:a".encode_utf16().collect();
+    all.extend_from_slice(units);
+    let mut v = if le { vec![0xFF, 0xFE] } else { vec![0xFE, 0xFF] };
+    for u in all {
+        v.extend_from_slice(&if le { u.to_le_bytes() } else { u.to_be_bytes() });
+    }
+    v
+}
+
 fn utf16_units(tier: Tier, acc_out: &mut Acc) -> Value {
     // every single unit
     let a = par_range(0x1_0000, |u, acc| {
@@ -230,6 +251,9 @@ fn utf16_units(tier: Tier, acc_out: &mut Acc) -> Value {
                     acc.violation(Violation::new("neighbour-line-affected", format!("unit {u:04X}"), case(&f)));
                 }
             }
+            let f = utf16_tail_file(le, &[u as u16]);
+            check_bytes(&f, acc);
+            check_bytes(&f[..f.len() - 1], acc);
         }
         if (0xD800..0xE000).contains(&u) || (u & 0xFF) == 0x0A || (u >> 8) == 0x0A {
             acc.nontrivial_hash(0x1_0000_0000 + u);
@@ -252,6 +276,9 @@ fn utf16_units(tier: Tier, acc_out: &mut Acc) -> Value {
                 let f = utf16_file(le, &units);
                 check_bytes(&f, acc);
                 // odd tail: drop the last byte
+                check_bytes(&f[..f.len() - 1], acc);
+                let f = utf16_tail_file(le, &units);
+                check_bytes(&f, acc);
                 check_bytes(&f[..f.len() - 1], acc);
             }
             acc.nontrivial(&units);
@@ -358,7 +385,8 @@ pub fn run(tier: Tier) -> i32 {
                decode to the reference value, neighbouring line unaffected; (b) every byte string of length <= 2 (quick) / 3 (thorough) \
                and every string over a 21-byte alphabet of length 4/5 injected into a UTF-8 line: routed lines == per-line \
                from_utf8_lossy; (c) every UTF-16 code unit and every sequence of <= 3/4 units over a boundary menu (lone and paired \
-               surrogates, units containing byte 0x0A, BOM-like units), LE and BE, also with the last byte dropped: == \
+               surrogates, units containing byte 0x0A, BOM-like units), LE and BE, also with the last byte dropped, in the middle of a line and as \
+               the last bytes of the input (as are the injected bytes of (b)): == \
                char::decode_utf16 with replacement, split on U+000A only; (d) every truncation of the bundled files in UTF-16LE/BE \
                and UTF-8+BOM; (e) bundled files decode identically in all encodings. Oracle = trace decoder + Metadata decoder vs \
                reference text decoding and framing. distinct_nontrivial = distinct non-ASCII scalars / invalid byte strings / unit sequences"
